@@ -1,5 +1,6 @@
 //! svcheck: one binary, one sub-command per property (`svcheck C01 quick`, `svcheck C01 --replay F`).
 mod c01;
+mod c07;
 mod common;
 mod selftest;
 
@@ -16,6 +17,7 @@ fn main() {
     let code = match id.as_str() {
         "selftest" => selftest::run(),
         "C01" => main_entry(&c01::C01, |t: Tier| Plan::new(t.pick(6_000, 400_000), t.pick(2600, 4000)), rest),
+        "C07" => main_entry(&c07::C07, |t: Tier| Plan::new(t.pick(20_000, 400_000), t.pick(2600, 4000)), rest),
         other => {
             println!("INFRA: no check registered for {}", other);
             2
